@@ -57,6 +57,9 @@ def main(argv):
     ap.add_argument('--runs', type=int)
     ap.add_argument('--workers', type=int, default=int(os.environ.get('DFSIM_WORKERS', '16')))
     ap.add_argument('--no-evidence', action='store_true')
+    ap.add_argument('--digests', action='store_true', help='print one DIGEST line per run (determinism self-test)')
+    ap.add_argument('--only', help='selftests: restrict to one property / mutant')
+    ap.add_argument('--dump', type=int, help='run only index i and print its full record incl. events')
     a = ap.parse_args(argv)
     seed = int(os.environ.get('VERIF_SEED', '0') or 0)
     if a.what.startswith('selftest'):
@@ -68,6 +71,21 @@ def main(argv):
         prop = load_prop(a.what)
         if a.replay:
             return engine.replay(prop, a.replay, a.tier)
+        if a.dump is not None:
+            import json
+            from dfsim.core import seeds
+            os.environ['DFSIM_KEEP_EVENTS'] = '1'
+            pool.scratch_root()
+            rec = pool.run_one(prop, {'i': a.dump, 'seed': seeds.run_seed(seed, prop.ID, a.tier, a.dump)}, a.tier, 600)
+            print(json.dumps(rec, indent=1, default=repr))
+            return 0
+        if a.digests:
+            from dfsim.core import seeds
+            n = a.runs or 48
+            tasks = [{'i': i, 'seed': seeds.run_seed(seed, prop.ID, a.tier, i)} for i in range(n)]
+            for r in pool.run_batch(prop, tasks, a.tier, workers=a.workers, wall=int(os.environ.get('DFSIM_RUN_WALL', 0)) or prop.TIERS[a.tier].get('run_wall', 60)):
+                print('DIGEST %d %s %s %s' % (r['i'], r.get('digest'), r['verdict'], r.get('n_events')))
+            return 0
         return engine.run_check(prop, a.tier, seed, workers=a.workers, runs=a.runs, write_evidence=not a.no_evidence)
     finally:
         pool.cleanup_scratch()
